@@ -117,7 +117,11 @@ def prepare(case, bolt11_of):
     if "_pool" in c:
         c["pool"] = [finalize_htlc(e, bolt11_of) for e in c.pop("_pool")]
     if "_script" in c:
-        c["script"] = [finalize_htlc(e, bolt11_of) if e.get("e") == "htlc" else e for e in c.pop("_script")]
+        def fin(e):
+            if e.get("e") == "htlc": return finalize_htlc(e, bolt11_of)
+            if e.get("e") == "burst": return {"e": "burst", "items": [finalize_htlc(x, bolt11_of) for x in e["items"]]}
+            return e
+        c["script"] = [fin(e) for e in c.pop("_script")]
     return c
 
 # ------------------------------------------------------------------------------------------
@@ -161,7 +165,7 @@ def pay_ending(r, kind):
         ev += tail
     return ev
 
-def story_case(r, ending=None, npieces=None, reject=None, nhash=1, heights=True, cfg=None, amount=None, second=False):
+def story_case(r, ending=None, npieces=None, reject=None, nhash=1, heights=True, cfg=None, amount=None, second=False, burst=False):
     """One payment from first HTLC to its fate. reject: None | (kind, position)"""
     cfg = cfg or mk_cfg(r)
     b = CaseBuilder(r, cfg, nhash)
@@ -181,11 +185,18 @@ def story_case(r, ending=None, npieces=None, reject=None, nhash=1, heights=True,
         hts.insert(min(pos, len(hts)), x)
     script = []
     if heights: script.append({"e": "height", "v": r.choice([0, 100, 1400, 1466, 1467, 3000])})
-    for i, h in enumerate(hts):
-        script.append(h)
-        for _ in range(r.below(4)): script.append({"e": "drain_step"})
-        if heights and r.chance(1, 4): script.append({"e": "height", "v": r.below(2500)})
-        if r.chance(1, 5): script.append({"e": "tick", "ms": 1000 * (1 + r.below(5))})
+    if burst:
+        # the HTLCs of the set arrive concurrently under lock contention (all at once, or after the lifecycle reached the select!)
+        k = r.below(len(hts)) if len(hts) > 1 and r.chance(1, 2) else 0
+        for h in hts[:k]:
+            script.append(h); script.append({"e": "drain"})
+        script.append({"e": "burst", "items": hts[k:]})
+    else:
+        for i, h in enumerate(hts):
+            script.append(h)
+            for _ in range(r.below(4)): script.append({"e": "drain_step"})
+            if heights and r.chance(1, 4): script.append({"e": "height", "v": r.below(2500)})
+            if r.chance(1, 5): script.append({"e": "tick", "ms": 1000 * (1 + r.below(5))})
     script.append({"e": "drain"})
     script += pay_ending(r, ending or r.choice(PAY_ENDINGS))
     script.append({"e": "drain"})
@@ -194,7 +205,7 @@ def story_case(r, ending=None, npieces=None, reject=None, nhash=1, heights=True,
         at = len(script) - 1 - r.below(4)
         script.insert(max(0, at), b.htlc(inv, total, total, expiry=2200, rel=pol[2] + 50))
         script += [{"e": "drain"}] + pay_ending(r, r.choice(PAY_ENDINGS)) + [{"e": "drain"}]
-    return {"cfg": cfg, "invoices": b.invoices, "preimages": b.preimages, "_script": script, "family": "story/%s/%s%s" % (ending, reject and reject[0], "/second" if second else ""),
+    return {"cfg": cfg, "invoices": b.invoices, "preimages": b.preimages, "_script": script, "family": "%s/%s/%s%s" % ("burst" if burst else "story", ending, reject and reject[0], "/second" if second else ""),
             "suffix": [{"e": "finale"}], "_b": b, "_probe": b.htlc(inv, total, total, expiry=5000, rel=pol[2] + 100)}
 
 def straggler_case(r, ending=None):
